@@ -305,14 +305,18 @@ def set_clock(backend, T):
 
 
 async def run_gc(st, backend):
-    if backend == "sql":
-        from nostr_relay.storage.db import QueryGarbageCollector
+    """one pass of the storage's collector; like start_garbage_collector, one collector object lives as long as the storage"""
+    gc = getattr(st, "_verif_gc", None)
+    if gc is None:
+        if backend == "sql":
+            from nostr_relay.storage.db import QueryGarbageCollector
 
-        gc = QueryGarbageCollector(st)
-    else:
-        from nostr_relay.storage.kv import KVGarbageCollector
+            gc = QueryGarbageCollector(st)
+        else:
+            from nostr_relay.storage.kv import KVGarbageCollector
 
-        gc = KVGarbageCollector(st)
+            gc = KVGarbageCollector(st)
+        st._verif_gc = gc
     await gc.run_once()
 
 
